@@ -96,13 +96,16 @@ func c18Analyze(importPath, gopath string, wantMain bool) (rep *c18Report) {
 	}
 	sym, _ := parser.ParseFile(fset, "symbols.go", c18SymFile, 0)
 	files := []*ast.File{gen, sym}
-	if importPath == "os" || importPath == "log" {
+	if importPath == "os" || importPath == "log" || importPath == "log/slog" || importPath == "log/syslog" {
 		// the generated file refers to the replacements shipped next to it in package stdlib
-		b, err := os.ReadFile(filepath.Join(repoDir(), "stdlib", "restricted.go"))
-		if err == nil {
-			s := strings.Replace(string(b), "package stdlib", "package out", 1)
-			if f, err := parser.ParseFile(fset, "restricted.go", s, 0); err == nil {
-				files = append(files, f)
+		rs, _ := filepath.Glob(filepath.Join(repoDir(), "stdlib", "restricted*.go"))
+		for _, rf := range rs {
+			b, err := os.ReadFile(rf)
+			if err == nil {
+				s := strings.Replace(string(b), "package stdlib", "package out", 1)
+				if f, err := parser.ParseFile(fset, filepath.Base(rf), s, parser.ParseComments); err == nil {
+					files = append(files, f)
+				}
 			}
 		}
 	}
@@ -337,7 +340,8 @@ func c18RestrictedOK(importPath, name string, d types.Object) bool {
 	if d == nil || d.Pkg() == nil || d.Pkg().Name() != "out" {
 		return false
 	}
-	want := map[string]string{"os.Exit": "osExit", "os.FindProcess": "osFindProcess", "log.Fatal": "logFatal", "log.Fatalf": "logFatalf", "log.Fatalln": "logFatalln", "log.New": "logNew", "log.Default": "logDefault"}
+	want := map[string]string{"os.Exit": "osExit", "os.FindProcess": "osFindProcess", "log.Fatal": "logFatal", "log.Fatalf": "logFatalf", "log.Fatalln": "logFatalln", "log.New": "logNew", "log.Default": "logDefault",
+		"log/slog.NewLogLogger": "slogNewLogLogger", "log/syslog.NewLogger": "syslogNewLogger"}
 	return want[importPath+"."+name] == d.Name()
 }
 
